@@ -7,6 +7,10 @@ ids = [p["id"] for p in props]
 
 # id -> (technique, level text, level note, design ref)
 CLAIMED = {
+ "C12": ("bounded exhaustive enumeration of call orderings per object + proptest-generated call sequences; differential oracle across the four cache configurations and against each call issued alone",
+         "Generated-input search: for each surveyed object of corpus and generated files, orderings of up to 5 distinct call kinds (right and wrong typed loads, resolve, Stream::data, raw_image_data, image_data) and random sequences of up to 12 calls across objects and pages are executed on documents opened with both / object-only / stream-only / no caches; every call must give the same digest or root-cause error kind in all four and when issued alone.",
+         "digests are hashes of canonical values; error kinds compared with wrappers peeled; SyncCache is the library's own cache type",
+         "DESIGN.md §4 C12"),
  "C19": ("proptest-generated W arrays / simple-font tables / code-to-text maps / conformant CMap texts; reference model (map of assigned widths, map of entries) as oracle, write_cmap round-trip",
          "Generated-input search: composite-font width arrays with groups in any order and both forms (the evidence counts the five growth cases empty/append/prepend/gap/inside), simple fonts, maps with BMP, supplementary and multi-character texts, and independently generated CMap texts using bfchar and both bfrange forms with 1- and 2-byte codes; every probed code's width and the exact set of map entries are compared with the model.",
          "fonts are read through the public API from files written by the harness; simple fonts carry no /MissingWidth",
